@@ -188,6 +188,16 @@ func RunCtx(seed int64, idx int) *Result {
 		}
 		c = lastCap()
 	} else if mode == 1 {
+		if me != 1 && rng.Intn(2) == 0 {
+			// first the proposal of view 1's leader arrives early: it is validated (under the context of (H, 1), which the worker
+			// thereby creates in the registry) and put aside, since the node is still in view 0
+			atomic.StoreInt32(&parkArmed, 0)
+			early := &spi.Blk{H: H, Body: "early-proposal-of-view-1"}
+			nd.ML.HandleConsensusMessage(nd.ctx, factory(net.Nodes[1].Id).CreatePreprepareMessage(primitives.BlockHeight(H), 1, early, spi.HashOf(early)).ToConsensusRawMessage())
+			nd.Witness(8)
+			atomic.StoreInt32(&parkArmed, 1)
+			net.count("C15 cases with the next view's proposal validated before the current view's call parks")
+		}
 		// the proposal of view 0's leader: the node parks inside ValidateBlockProposal at (1, 0)
 		blk := &spi.Blk{H: H, Body: "proposal-of-view-0"}
 		nd.ML.HandleConsensusMessage(nd.ctx, factory(net.Nodes[0].Id).CreatePreprepareMessage(primitives.BlockHeight(H), 0, blk, spi.HashOf(blk)).ToConsensusRawMessage())
